@@ -203,7 +203,7 @@ pub fn special_by_index(i: usize, r: &mut Rng) -> FormatSpecial {
         6 => FormatSpecial::TabVertical,
         7 => FormatSpecial::Null,
         8 => FormatSpecial::Backslash,
-        _ => FormatSpecial::Ascii(*r.pick(&[0o101u16, 0o040, 0o001, 0o177, 0o012, 0o060])),
+        _ => FormatSpecial::Ascii(*r.pick(&[0o101u16, 0o040, 0o001, 0o177, 0o012, 0o060, 0o042, 0o134, 0o176, 0o045, 0o050, 0o000, 0o011])),
     }
 }
 
@@ -214,7 +214,7 @@ pub fn gen_format(r: &mut Rng, benign_only: bool) -> Vec<FormatElement> {
     for _ in 0..n {
         match r.below(5) {
             0 if !matches!(v.last(), Some(FormatElement::Literal(_))) => {
-                let lits = ["x", ",", " ", "abc", ":", "-", "size=", "p"];
+                let lits = ["x", ",", " ", "abc", ":", "-", "size=", "p", "line\n", "\n", "~a", "q\"q"];
                 v.push(FormatElement::Literal(r.pick(&lits).to_string()))
             }
             1 => {
